@@ -182,6 +182,14 @@ def session_writes():
         'aspath-too-long': {'attr': dict(a, **{'2': [[2, [65001] * 3000]]}), 'nlri': ['10.9.0.0/16']},
         'unknown-attribute-text': {'attr': dict(a, **{'16': ['no-such-kind:1:2']}), 'nlri': ['10.9.0.0/16']},
     }
+    # a rich request with ONE value of the wrong shape (text that is no address / prefix / community, numbers out of range)
+    rich = {'attr': {'1': 0, '2': [[2, [65001, 65002]]], '3': '10.0.0.1', '4': 7, '5': 100, '8': ['65001:1', 'NO_EXPORT'],
+                     '16': ['route-target:65001:1', 'route-origin:10.0.0.1:2'], '32': ['65001:1:2']}, 'nlri': ['10.9.0.0/16', '10.8.0.0/24'], 'withdraw': ['10.7.0.0/16']}
+    for path, leaf in _leaves(rich):
+        vals = POISON_STR + ('route-target:70000:70000', 'route-target:1', '65536:1') if isinstance(leaf, str) else POISON_INT
+        for v in vals:
+            if v != leaf:
+                bad_requests['one-value-of-the-wrong-shape:%s=%r' % ('/'.join(str(x) for x in path if not isinstance(x, int)), v)] = _with(rich, path, v)
     for cfg in ({}, {'four_bytes_as': False}):
         M = session_messages()
         for name, body in sorted(bad_requests.items()):
